@@ -220,6 +220,10 @@ class Conn:
             self._queue(data[:fault[1]])
             self.stalled = True
             return True
+        if kind == 'notice_close':   # what a busy or unwilling server says instead of its identification string, then it hangs up
+            self._queue(NOTICES[fault[1]] + b'\r\n')
+            self._finish(EOF)
+            return True
         if kind == 'reset':
             self._finish(RST)
             return True
@@ -362,6 +366,8 @@ def faults_for_site(site, level='full', trunc_step=1):
     elif site['label'] in ('banner', 'pre_banner'):
         out.append(('prelines', 1))
         out.append(('prelines', 3))
+        for i in range(len(NOTICES)):
+            out.append(('notice_close', i))
     elif site['label'] == 'ssh1_pubkey':
         for k in (1, 4, 8, 12, 40, 10 ** 6):
             out.append(('ssh1_drop', k))
@@ -374,6 +380,11 @@ def faults_for_site(site, level='full', trunc_step=1):
         for k in range(1, n):
             out.append(('split', k))
     return out
+
+
+# texts real servers (sshd, tcp wrappers, load balancers) send in place of the identification string before closing the connection
+NOTICES = [b'Exceeded MaxStartups', b'Not allowed at this time', b'Too many connections', b'Protocol mismatch.', b'Invalid SSH identification string.',
+           b'ssh_exchange_identification: Connection closed by remote host', b'421 Service not available, closing connection']
 
 
 # --------------------------------------------------------------------------- GEX policies
@@ -489,6 +500,13 @@ class Server:
             self.records.append({'peer': self.label, 'index': idx, 'refused': True, 'sent': [], 'events': ['timeout'],
                                  'gex_requests': [], 'kex_inits': 0, 'closed_by_tool': True, 'packets_in': []})
             return 'timeout'
+        if isinstance(beh, tuple) and beh[0] == 'notice':       # one of NOTICES instead of the identification string, then closed
+            text = NOTICES[beh[1]]
+
+            def script_notice(c, text=text):
+                yield ('send', text + b'\r\n', 'notice')
+                yield ('close',)
+            return Conn(world, self, vsock, idx, script_notice)
         script = {'normal': self.script, 'silent': self.script_silent, 'close': self.script_close,
                   'exceeded': self.script_exceeded, 'reset': self.script_reset}[beh]
         return Conn(world, self, vsock, idx, script)
